@@ -590,7 +590,10 @@ def run(ctx):
                   r['evals'])
     ctx.add_sample(hc[0][1]['line'][:60] + '...')
     for kind in OVERLAP_KINDS:
-        ctx.count('overlap_cases_' + kind[3:], sum(r['overlap'].get(kind, 0) for r in res))
+        nov = sum(r['overlap'].get(kind, 0) for r in res)
+        ctx.count('overlap_cases_' + kind[3:], nov)
+        if nov == 0 and not ctx.violations and not ctx.known_hits:
+            ctx.note_inconclusive('no overlapping-buffer case of family %s was answered' % kind)
     if any(r['evals'] == 0 for r in hres) and not ctx.violations and not ctx.known_hits:
         ctx.note_inconclusive('a single call of 2^32+d bytes gave no answer')
     ctx.cov['builds'] = ['default (SHA-NI / SSE2 / SSE4.2 as the CPU allows)', 'portable (no CPU feature compiled in)'] + \
